@@ -64,8 +64,6 @@ def run(c):
     c.r2_arg("proof-step-element", vc, M + "verify", 2, must=["call:Vec::remove", "call:PMMRIndexHashable::hash_with_index"], floor=1,
              desc="verify_consume recurses on the pair built from the consumed sibling and the node hash")
     c.r2_arg("proof-node-hash-element", vc, HWI, 0, must=["arg2"], floor=1, desc="the node hash is taken over the supplied element")
-    c.r2("proof-left-right-order", vc, cond=r"^pmmr::is_left_sibling\(pmmr::family\(arg3\)\.1\)$", dominate=False, fail_on=True, sink="return",
-         desc="verify_consume orders (sibling, node) by is_left_sibling of the sibling position") if False else None
     vf = M + "verify"
     c.r2_arg("verify-root", vf, M + "verify_consume", 1, must=["arg1"], desc="MerkleProof::verify passes the root on")
     c.r2_arg("verify-element", vf, M + "verify_consume", 2, must=["arg2"], desc="MerkleProof::verify passes the element on")
